@@ -638,6 +638,8 @@ def _lower_singledispatch(ctx: RuleCtx, mod: Module) -> None:
             ast.fix_missing_locations(ast.copy_location(a, g.body[0]))
         g.body[:0] = arms
         g.decorator_list = [d for d in g.decorator_list if d not in sd]
+        for _, f in regs:       # the registration is now expressed by the arms: the implementation is a plain helper
+            f.decorator_list = [d for d in f.decorator_list if attr_chain(d.func if isinstance(d, ast.Call) else d) != f'{g.name}.register']
 
 
 def _m(ctx: RuleCtx, rel: str) -> Module:
@@ -785,10 +787,113 @@ def _helper_of(mod: Module, cls: T.Optional[str], call: ast.Call) -> T.Optional[
         return _CLOSURES[f.id]
     if isinstance(f, ast.Name) and mod.has_func(f.id):
         return T.cast(ast.FunctionDef, mod.func(f.id))
+    if isinstance(f, ast.Attribute) and isinstance(f.value, ast.Call) and cls is not None:
+        # `self.accessor(..).m(..)`: the classes named by the accessor's return annotation all inherit ONE definition of m
+        acc = f.value.func
+        if isinstance(acc, ast.Attribute) and isinstance(acc.value, ast.Name) and acc.value.id == 'self' and acc.attr in mod.methods(cls):
+            return _one_method(mod, _annotation_classes(mod, mod.methods(cls)[acc.attr].returns, 0), f.attr)
+    if isinstance(f, ast.Attribute) and isinstance(f.value, ast.Name) and f.value.id in _LOCAL_CLASSES:
+        return _one_method(mod, _LOCAL_CLASSES[f.value.id], f.attr)
+    return None
+
+
+def _mapping_annotation(mod: Module, ann: T.Optional[ast.AST], depth: int = 0) -> T.Optional[T.Tuple[ast.AST, ast.AST]]:
+    """(key annotation, value annotation) of `Dict[K, V]` / `Mapping[K, V]` / ..., through quoting and module-level aliases."""
+    if ann is None or depth > 4:
+        return None
+    if isinstance(ann, ast.Constant) and isinstance(ann.value, str):
+        try:
+            return _mapping_annotation(mod, ast.parse(ann.value, mode='eval').body, depth + 1)
+        except SyntaxError:
+            return None
+    if isinstance(ann, ast.Name) and not mod.has_cls(ann.id) and mod.has_assign(ann.id):
+        return _mapping_annotation(mod, mod.assign_value(ann.id), depth + 1)
+    if isinstance(ann, ast.Subscript) and (attr_chain(ann.value) or '').split('.')[-1] in ('Dict', 'dict', 'Mapping', 'MutableMapping', 'OrderedDict') \
+            and isinstance(ann.slice, ast.Tuple) and len(ann.slice.elts) == 2:
+        return ann.slice.elts[0], ann.slice.elts[1]
+    return None
+
+
+def _local_class_sets(mod: Module, cls: T.Optional[str], fn: ast.AST) -> T.Dict[str, T.Set[str]]:
+    """Names of fn with ONE binding whose declared type names classes of this module: an annotated parameter, the targets of
+    `for k, v in P.items()` over a parameter annotated as a mapping, a local bound once to `self.accessor(..)` with a return
+    annotation.  (The annotation is the closed-world statement of which objects arrive; see ASSUMPTIONS.)"""
+    nbind: T.Dict[str, int] = {}
+    for n in ast.walk(fn):
+        if isinstance(n, ast.Name) and isinstance(n.ctx, (ast.Store, ast.Del)):
+            nbind[n.id] = nbind.get(n.id, 0) + 1
+    out: T.Dict[str, T.Set[str]] = {}
+    pann = {a.arg: a.annotation for a in fn.args.posonlyargs + fn.args.args if a.arg not in nbind}  # type: ignore[attr-defined]
+    for name, ann in pann.items():
+        cs = _annotation_classes(mod, ann, 0)
+        if cs and name not in ('self', 'cls'):
+            out[name] = cs
+    for st in ast.walk(fn):
+        if isinstance(st, ast.For):
+            il = _items_loop(st)
+            if il is not None and isinstance(il[2], ast.Name) and il[2].id in pann:
+                kv = _mapping_annotation(mod, pann[il[2].id])
+                for name, ann in zip(il[:2], kv or ()):
+                    cs = _annotation_classes(mod, ann, 0)
+                    if cs and nbind.get(name) == 1:
+                        out[name] = cs
+        elif isinstance(st, ast.Assign) and len(st.targets) == 1 and isinstance(st.targets[0], ast.Name) and nbind.get(st.targets[0].id) == 1 \
+                and isinstance(st.value, ast.Call) and isinstance(st.value.func, ast.Attribute) and isinstance(st.value.func.value, ast.Name) \
+                and st.value.func.value.id == 'self' and cls is not None and st.value.func.attr in mod.methods(cls):
+            cs = _annotation_classes(mod, mod.methods(cls)[st.value.func.attr].returns, 0)
+            if cs:
+                out[st.targets[0].id] = cs
+    return out
+
+
+def _one_method(mod: Module, classes: T.Optional[T.Set[str]], name: str) -> T.Optional[ast.FunctionDef]:
+    """The single definition of method `name` that every class of the set inherits (None when there are several or one lacks it)."""
+    if not classes:
+        return None
+    res = [mod.repo.find_method(mod, mod.cls(c), name) for c in sorted(classes)]
+    if any(r is None for r in res) or len({id(r[2]) for r in res if r is not None}) != 1:
+        return None
+    # no subclass (in the module) of these classes may override it either
+    target = res[0][2]  # type: ignore[index]
+    for cname, cnode in mod.classes().items():
+        if {c.name for _, c in mod.repo.mro(mod, cnode)} & classes:
+            r = mod.repo.find_method(mod, cnode, name)
+            if r is None or r[2] is not target:
+                return None
+    return T.cast(ast.FunctionDef, target)
+
+
+def _annotation_classes(mod: Module, ann: T.Optional[ast.AST], depth: int) -> T.Optional[T.Set[str]]:
+    """The classes of the module a return annotation names: a class, a quoted class, a module-level alias of these, a Union
+    of these; None when any part is something else (Optional, a foreign class, a type variable ...)."""
+    if ann is None or depth > 4:
+        return None
+    if isinstance(ann, ast.Constant) and isinstance(ann.value, str):
+        try:
+            return _annotation_classes(mod, ast.parse(ann.value, mode='eval').body, depth + 1)
+        except SyntaxError:
+            return None
+    if isinstance(ann, ast.Name):
+        if mod.has_cls(ann.id):
+            return {ann.id}
+        return _annotation_classes(mod, mod.assign_value(ann.id), depth + 1) if mod.has_assign(ann.id) else None
+    if isinstance(ann, ast.Subscript) and (attr_chain(ann.value) or '').split('.')[-1] == 'Union':
+        elts = ann.slice.elts if isinstance(ann.slice, ast.Tuple) else [ann.slice]
+        out: T.Set[str] = set()
+        for e in elts:
+            sub = _annotation_classes(mod, e, depth + 1)
+            if sub is None:
+                return None
+            out |= sub
+        return out
+    if isinstance(ann, ast.BinOp) and isinstance(ann.op, ast.BitOr):
+        l, r = _annotation_classes(mod, ann.left, depth + 1), _annotation_classes(mod, ann.right, depth + 1)
+        return None if l is None or r is None else l | r
     return None
 
 
 _CLOSURES: T.Dict[str, ast.FunctionDef] = {}
+_LOCAL_CLASSES: T.Dict[str, T.Set[str]] = {}      # name with one binding -> classes of the module its annotation names (see _local_class_sets)
 _LOCAL_TYPES: T.Dict[str, str] = {}      # local name -> class of the same module it is an instance of (all its non-None bindings are `Cls(...)`)
 
 
@@ -863,8 +968,11 @@ def _instantiate(callee: ast.FunctionDef, call: ast.Call, tag: str,
     params = [x.arg for x in a.posonlyargs + a.args]
     recv_env: T.Dict[str, ast.AST] = {}
     if params and params[0] in ('self', 'cls') and isinstance(call.func, ast.Attribute) and 'staticmethod' not in decos:
-        if isinstance(call.func.value, ast.Name) and call.func.value.id not in ('self', 'cls') and call.func.value.id in _LOCAL_TYPES:
+        if isinstance(call.func.value, ast.Name) and call.func.value.id not in ('self', 'cls') and \
+                (call.func.value.id in _LOCAL_TYPES or call.func.value.id in _LOCAL_CLASSES):
             recv_env[params[0]] = call.func.value        # method of another object of this module: `self` is that object
+        elif isinstance(call.func.value, ast.Call):
+            recv_env[params[0]] = call.func.value        # `self.accessor(k).m(..)`: `self` is what the (primitive) accessor names
         params = params[1:]
     body = list(callee.body)
     if body and isinstance(body[0], ast.Expr) and isinstance(body[0].value, ast.Constant) and isinstance(body[0].value.value, str):
@@ -912,6 +1020,10 @@ def _single_helper_call(mod: Module, cls: T.Optional[str], st: ast.stmt, keep: T
     if not isinstance(st, (ast.Expr, ast.Assign, ast.AnnAssign, ast.AugAssign, ast.Return)) or getattr(st, 'value', None) is None:
         return None
     calls = [c for c in ast.walk(st.value) if isinstance(c, ast.Call)]  # type: ignore[arg-type]
+    if len(calls) == 2 and isinstance(calls[0].func, ast.Attribute) and calls[0].func.value is calls[1] and call_method(calls[1]) in keep \
+            and all(attr_chain(a) is not None for a in calls[1].args) and not calls[1].keywords:
+        # `self.accessor(k).m(..)`: the receiver is named by an accessor the rule treats as a primitive (its text denotes the object)
+        calls = calls[:1]
     if len(calls) != 1 or call_method(calls[0]) in keep:
         return None
     if isinstance(st, ast.Assign) and not all(isinstance(t, ast.Name) for t in st.targets):
@@ -1040,11 +1152,14 @@ def _inlined(mod: Module, qn: str, keep: T.Iterable[str] = ()) -> ast.FunctionDe
     _CLOSURES.update({st.name: st for st in ast.walk(fn) if isinstance(st, ast.FunctionDef) and st is not fn})
     _LOCAL_TYPES.clear()
     _LOCAL_TYPES.update(_local_types(mod, fn))
+    _LOCAL_CLASSES.clear()
+    _LOCAL_CLASSES.update({k: v for k, v in _local_class_sets(mod, cls, fn).items() if k not in _LOCAL_TYPES})
     try:
         fn2.body = _inline_helpers(mod, cls, fn.body, set(keep) | {fn.name})
     finally:
         _CLOSURES.clear()
         _LOCAL_TYPES.clear()
+        _LOCAL_CLASSES.clear()
     _statement_forms(fn2)       # statement normal forms again: the instantiated helper bodies may introduce `x = a if c else b` etc.
     return T.cast(ast.FunctionDef, fn2)
 
